@@ -23,7 +23,7 @@
    kept.  [cutoff] is the IEEE double the literal 0.1 denotes (so `dur <= 0.1` is modelled bit-exactly); the constants
    12, 1/512, 100 are exact.  Python's hash(pid) / hash((pid, 0)) are taken to be injective on the pids in use
    (non-negative small integers). *)
-From Coq Require Import ZArith QArith List Bool String Ascii.
+From Coq Require Import ZArith QArith List Bool String Ascii Sorted.
 Import ListNotations.
 From AiuModel Require Import Base Pipeline.
 Local Open Scope Z_scope.
@@ -72,20 +72,25 @@ Definition extract_step (seen : Z -> bool) (e : ev) : (Z -> bool) * list ev :=
   end.
 
 (* ------------------------------------------------------------------ stage 2: sort_events (counter sorter) *)
-Definition queues := list (Z * list counter).
-Fixpoint qadd (c : counter) (qs : queues) : queues :=
-  match qs with
-  | [] => [(c_pid c, [c])]
-  | (p, l) :: r => if p =? c_pid c then (p, l ++ [c]) :: r else (p, l) :: qadd c r
-  end.
+(* self.queues is an insertion-ordered dict  queue id -> list of events.  It is represented by the order in
+   which the queue ids (pids; helper counters have no tid) were first seen and the held counters in arrival
+   order: the queue of pid p is the subsequence of the held counters with that pid. *)
+Record queues := { q_order : list Z; q_held : list counter }.
+Definition mem (p : Z) (l : list Z) : bool := existsb (Z.eqb p) l.
+Definition qadd (c : counter) (qs : queues) : queues :=
+  {| q_order := if mem (c_pid c) (q_order qs) then q_order qs else q_order qs ++ [c_pid c];
+     q_held := q_held qs ++ [c] |}.
+Definition qempty : queues := {| q_order := []; q_held := [] |}.
+Definition queue_of (p : Z) (held : list counter) : list counter := filter (fun c => c_pid c =? p) held.
 Definition key_leb (a b : counter) : bool := Qle_bool (c_key a) (c_key b).
 Definition sort_step (qs : queues) (e : ev) : queues * list ev :=
   match e with
   | ECnt c => (qadd c qs, [])              (* ph "C" and has TS_cycles *)
   | _ => (qs, [e])
   end.
+(* drain: every queue sorted (stable) by TS_cycles, queues in insertion order *)
 Definition sort_drain (qs : queues) : queues * list ev :=
-  ([], flat_map (fun q => map ECnt (isort key_leb (snd q))) qs).
+  (qempty, flat_map (fun p => map ECnt (isort key_leb (queue_of p (q_held qs)))) (q_order qs)).
 
 (* ------------------------------------------------------------------ stage 3: compute_power *)
 (* skip_events rules of compute_delta *)
@@ -153,7 +158,7 @@ Definition g_power (skip : bool) : stage ev pst :=
   {| cb := power_cb skip; cid := 3%nat; dr := no_dr; bar := false |}.
 Definition power_stages (skip : bool) : list (stage ev pst) := [g_extract; g_sort; g_power skip].
 Definition st0 : store pst := fun i =>
-  match i with 1%nat => SX (fun _ => false) | 2%nat => SS [] | 3%nat => SP (fun _ => None) | _ => hempty end.
+  match i with 1%nat => SX (fun _ => false) | 2%nat => SS qempty | 3%nat => SP (fun _ => None) | _ => hempty end.
 
 (* Engine.run over the three stages *)
 Definition power_run (skip : bool) (es : list ev) : list ev := run (power_stages skip) st0 es.
@@ -205,11 +210,26 @@ Fixpoint pairs {A B} (f : A -> A -> B) (l : list A) : list B :=
 Definition power_spec (p : Z) (ss : list slice) : list ev :=
   pairs (fun a b => EPow p (fst a) (watts_spec a b)) (valid_samples p ss).
 (* ranks in order of their first sampled slice *)
-Fixpoint pids_order (seen : list Z) (ss : list slice) : list Z :=
-  match ss with
-  | [] => []
-  | s :: r => if sampled s && negb (existsb (Z.eqb (s_pid s)) seen)
-              then s_pid s :: pids_order (s_pid s :: seen) r else pids_order seen r
-  end.
+Definition firsts (l : list Z) : list Z := fold_left (fun acc p => if mem p acc then acc else acc ++ [p]) l [].
+Definition pids_order (ss : list slice) : list Z := firsts (map s_pid (filter sampled ss)).
 Definition charges_32bit (ss : list slice) : Prop :=
   Forall (fun s => 0 <= s_charge s < W32) ss.
+
+(* ---- bounds, order, energy (statements of props/C10.v) *)
+Definition ok_ev (e : ev) : Prop :=
+  match e with
+  | ESlice _ => True
+  | EPow _ _ w => (0 <= w)%Q /\ (w <= CAP)%Q
+  | ECnt _ | EErr => False          (* no helper counter leaks, OverflowError is not raised *)
+  end.
+Definition pow_ts (e : ev) : Q := match e with EPow _ t _ => t | _ => 0 end.
+Definition strict_times (l : list (Q * Z)) : Prop := StronglySorted (fun a b => (fst a < fst b)%Q) l.
+Definition qsum (l : list Q) : Q := fold_right Qplus 0%Q l.
+Definition zsum (l : list Z) : Z := fold_right Z.add 0 l.
+(* sum of P_i * (t_{i+1} - t_i) over the emitted values, and the charge it stands for *)
+Definition energy (vs : list (Q * Z)) : Q := qsum (pairs (fun a b => watts_spec a b * (fst b - fst a))%Q vs).
+Definition dcharge_sum (vs : list (Q * Z)) : Z := zsum (pairs (fun a b => (snd b - snd a) mod W32) vs).
+Definition unclamped (a b : Q * Z) : Q := (VOLT * inject_Z ((snd b - snd a) mod W32) * LSB / (fst b - fst a))%Q.
+Definition no_clamp (vs : list (Q * Z)) : Prop := Forall (fun w => (w <= CAP)%Q) (pairs unclamped vs).
+(* un-wrapped accumulated charge: monotone, less than one full counter period per step *)
+Definition mono_steps (us : list Z) : Prop := Forall (fun d => 0 <= d < W32) (pairs (fun a b => b - a) us).
